@@ -178,6 +178,11 @@ def exhaustive_core(ctx, conf, tmpdir):
 
 def run_shard(ctx):
     conf = TIERS[ctx.tier]
+    if ctx.shard == ctx.nshards - 1 and not ctx.replay:
+        # the repository's own 579 tests as one more workload, with the passive AudioReader monitor riding on every call they make
+        from .. import repotests
+
+        repotests.run(ctx, "reader")
     tmpdir = tempfile.mkdtemp(prefix="vf-c10-")
     try:
         if ctx.shard == 0:
@@ -207,7 +212,7 @@ def replay(ctx, case):
 def inconclusive(merged, tier):
     c = merged["counters"]
     need = ["readers", "readers_with_overlap", "readers_with_max_read", "readers_on_empty_source", "nones_after_end_observed",
-            "constructor_errors_observed", "exhaustive_core_cases", "readers_hop_dur_below_block_dur_same_sample_count", "second_passes_checked", "reads_before_open_attempted", "redundant_opens_mid_stream"] + ["kind_" + k for k in RC.SOURCE_KINDS]
+            "constructor_errors_observed", "exhaustive_core_cases", "readers_hop_dur_below_block_dur_same_sample_count", "second_passes_checked", "reads_before_open_attempted", "redundant_opens_mid_stream", "repo_tests_reader_blocks_checked"] + ["kind_" + k for k in RC.SOURCE_KINDS]
     return [f"monitor never observed {k}" for k in need if c.get(k, 0) == 0]
 
 
